@@ -196,9 +196,10 @@ def rename_contract(lib, key, fdef):
         if isinstance(x, tuple):
             return tuple(sub(y) for y in x)
         if isinstance(x, dict):
-            return {(sub(k) if isinstance(k, str) and k in mapping else k): sub(v) for k, v in x.items()}
+            # keys: a local's name as a key (loop specs keyed by name), or a site / call text that mentions a local ('call:gate.forward#0.before')
+            return {(sub(k) if isinstance(k, str) else k): sub(v) for k, v in x.items()}
         return x
-    for fld in ('requires', 'ensures', 'loops', 'hints', 'modifies', 'modifies_scalar', 'result_term'):
+    for fld in ('requires', 'ensures', 'loops', 'hints', 'modifies', 'modifies_scalar', 'result_term', 'calls', 'ghost', 'decreases'):
         if fld in raw:
             raw[fld] = sub(raw[fld])
     raw['params'] = [(mapping.get(p, p), t) for p, t in raw['params']]
